@@ -48,8 +48,9 @@ RULE = (
     'quick: exhaustive <=4 ops (GitHub with keys pre-merge/github_actions, '
     'Bitbucket), <=3 ops (GitHub with two status contexts) + Hypothesis '
     'histories of <=5 ops over a wider alphabet; thorough: exhaustive <=5 '
-    '(<=4 for the two-context GitHub variant). non-trivial = history with a poll whose answer '
-    'is forced by stickiness against a different host truth, or a poll after '
+    '(<=4 for the two-context GitHub variant). non-trivial = history with a '
+    'poll whose answer is forced by stickiness against a different host '
+    'truth, or a poll after '
     'a modelled eviction of a green entry (distinct by full history).')
 ASSUMPTIONS = [
     'GitHub/Bitbucket replaced by a scripted requests transport adapter '
@@ -289,6 +290,13 @@ def variance_cause(runs, orc):
     return 'other'
 
 
+def case_order(case):
+    """Representative of a signature: host-consistent runs first (status
+    completed iff a conclusion is set), then the smallest case."""
+    j = json.dumps(case, sort_keys=True, default=str)
+    return (not case.get('consistent_runs', True), len(j), j)
+
+
 class Stats:
     def __init__(self):
         self.c = Counter()
@@ -304,10 +312,9 @@ class Stats:
         if 'cause' in sig:
             self.c['viol_%s_%s_%s_%s' % (
                 sig['part'], sig['clause'], sig['cause'],
-                'hostlike' if sig.get('consistent_runs') else 'any')] += 1
+                'hostlike' if case.get('consistent_runs') else 'any')] += 1
         k = json.dumps(sig, sort_keys=True)
-        size = (len(json.dumps(case, sort_keys=True, default=str)),
-                json.dumps(case, sort_keys=True, default=str))
+        size = case_order(case)
         if k not in self.best or size < self.best[k][0]:
             self.best[k] = (size, message, case, sig)
 
@@ -321,8 +328,9 @@ class Stats:
         for k in sorted(self.best):
             _, message, case, sig = self.best[k]
             acc.violation(message, case, sig)
-        for s in self.samples[:2]:
-            acc.samples.append([1, s])
+        for s in self.samples[:1]:
+            # own quota in Acc.merge_dump (cache samples use flag 1)
+            acc.samples.append([2, s])
 
 
 def _fmt(o):
@@ -351,6 +359,7 @@ def check_orbit(lst, st, ev=fast_state, alphabet='full', sub_cache=None):
 
     def case(extra=None):
         c = {'part': 'aggregation', 'alphabet': alphabet,
+             'consistent_runs': hostlike,
              'runs': [run_human(*x) for x in lst]}
         if extra:
             c.update(extra)
@@ -377,8 +386,7 @@ def check_orbit(lst, st, ev=fast_state, alphabet='full', sub_cache=None):
                 'run of each workflow" is there a head branch whose kept '
                 'runs all concluded success' % _fmt(o), case(),
                 {'part': 'aggregation',
-                 'clause': 'success_needs_green_branch', 'cause': cause,
-                 'consistent_runs': hostlike})
+                 'clause': 'success_needs_green_branch', 'cause': cause})
         if not orc['strict']:
             st.c['stat_successful_beyond_per_branch_reading'] += \
                 sum(verdicts)
@@ -395,7 +403,7 @@ def check_orbit(lst, st, ev=fast_state, alphabet='full', sub_cache=None):
             'verdict depends on the order of the same runs: %s -> %s but '
             '%s -> %s' % (_fmt(o1[0]), o1[1], _fmt(o0[0]), o0[1]), case(),
             {'part': 'aggregation', 'clause': 'permutation_invariance',
-             'cause': cause, 'consistent_runs': hostlike})
+             'cause': cause})
     elif len(set(states)) > 1:
         st.c['stat_orbit_nonverdict_state_order_dependent'] += 1
     # best-run dominance: a worse run next to a green completed run of the
@@ -1154,6 +1162,14 @@ def run(ctx):
         [['shard_cache_enum', x] for x in cen if x[3] < 4] + \
         [['shard_agg_enum', x] for x in agg if x[1] < 3]
     acc = run_shards(__name__, 'shard_any', ctx, jobs)
+    # one representative per signature (cli prints the smallest case of at
+    # most five signatures): host-consistent inputs first
+    best = {}
+    for v in acc.violations:
+        k = json.dumps(v.signature, sort_keys=True)
+        if k not in best or case_order(v.case) < case_order(best[k].case):
+            best[k] = v
+    acc.violations = [best[k] for k in sorted(best)]
     # recount the sampled orbits (ordered lists, distinct across shards)
     sampled = sorted(int(k[3:]) for k in acc.nontrivial
                      if isinstance(k, str) and k.startswith('a4:'))
